@@ -141,8 +141,12 @@ PROPS = {
         explore=ct.explore_c12,
     ),
     "C17": dict(
-        modules=["JPV.Props.C17"],
-        theorems=["JPV.Props.C17_permitted_rel", "JPV.Props.C17_permitted_wt_rel", "JPV.Props.C17_oracle_exact", "JPV.Props.C17_deterministic_permitted", "JPV.Props.C17_shuffle_perm", "JPV.Props.C17_merge_interleaves", "JPV.Props.C17_children", "JPV.Props.C17_partial", "JPV.Props.C17_permitted",
+        modules=["JPV.Props.C17", "JPV.Props.C17Exh"],
+        theorems=["JPV.Props.C17_exhaustive_nodesc", "JPV.Props.C17_exhaustive_nodesc_wt", "JPV.Props.C17_exhaustive_nodesc_rel", "JPV.Props.C17_exhaustive_chain",
+                  "JPV.Props.C17_exhaustive_refuted", "JPV.Props.C17_exhaustive_refuted_rel", "JPV.Props.C17_exhaustive_false", "JPV.Props.C17_reachable_iff",
+                  "JPV.Props.C17_shuffle_exhaustive", "JPV.Props.C17_merge_exhaustive", "JPV.Props.C17_replay",
+                  "JPV.Props.C17_D24_permitted_six", "JPV.Props.C17_D24_produced_only", "JPV.Props.C17_D24_produced_all", "JPV.Props.C17_D24_notProduced_never",
+                  "JPV.Props.C17_permitted_rel", "JPV.Props.C17_permitted_wt_rel", "JPV.Props.C17_oracle_exact", "JPV.Props.C17_deterministic_permitted", "JPV.Props.C17_shuffle_perm", "JPV.Props.C17_merge_interleaves", "JPV.Props.C17_children", "JPV.Props.C17_partial", "JPV.Props.C17_permitted",
                   "JPV.Props.C17_permitted_wt", "JPV.Props.C17_permitted_builtin"],
         tables=[T + "random_sites_model", T + "env_defaults_model"],
         explore=cn.explore_c17,
